@@ -468,3 +468,73 @@ def vg2(P, C):
                     ok = False
                     detail += "; guard is conditional on %s" % f.render(f.nodes[inner_ifs[0]]["cond"])
         C.ob("VG-2", "read_fits_core", oid, ok, where, detail)
+
+
+def vg2c(P, C):
+    """VG-2c: the order is checked against the knot count before the first allocation sized with it; VG-2d: out-arguments initialised."""
+    C.rule("VG-2c", "in the reader's knot loop a throwing guard equivalent to nknots < 2*order+2, evaluated in 64 bits on the count just read, "
+           "dominates the allocation of the padded knot vector (allocate(nknots + 2*order) + order) and the pixel read into it: with an "
+           "unchecked ORDERn the 32-bit padding arithmetic wraps and the read lands outside the block", floor=1)
+    C.rule("VG-2d", "every local whose address is handed to fits_get_img_size as the size output is initialised where it is declared: cfitsio "
+           "writes min(NAXIS, requested) values, so an extension without axes leaves the variable untouched", floor=2)
+    for name in ("read_fits_core", "estimateMemory"):
+        f = [g for g in P.functions.values() if g.unit == "driver" and g.name == name and "splinetable<" in g.qname][0]
+        for i, cal in f.calls():
+            if cal and (f.call_macro(i) or cal["name"]) in ("fits_get_img_size", "ffgisz"):
+                a = f.strip(f.args(i)[2])
+                if f.k(a) == "UnaryOperator" and f.nodes[a]["op"] == "&" and f.k(f.strip(f.nodes[a]["ch"][0])) == "DeclRefExpr":
+                    vid = f.nodes[f.strip(f.nodes[a]["ch"][0])]["decl"]["id"]
+                    init = None
+                    for y in f.walk():
+                        if f.k(y) == "DeclStmt":
+                            for d in f.nodes[y]["decls"]:
+                                if d.get("id") == vid:
+                                    init = d.get("init", -1)
+                    C.ob("VG-2d", name, "out-argument:" + f.var_name(vid), init is not None and init >= 0, f.loc(i),
+                         "%s is initialised at its declaration" % f.var_name(vid) if init is not None and init >= 0 else
+                         "%s is declared without a value; if the extension has NAXIS = 0, fits_get_img_size writes nothing and the garbage is then "
+                         "compared and used as a size" % f.var_name(vid))
+    f = [g for g in P.fns("read_fits_core") if g.unit == "driver"][0]
+    # the padded allocation: knots[i] = allocate<double>(nknots[i] + 2*order[i]) + order[i]
+    allocs = [y for y in f.walk() if ts.assign_parts(f, y) and ts.root_member(f, ts.assign_parts(f, y)[0]) and
+              ts.root_member(f, ts.assign_parts(f, y)[0])[:2] == ("knots", 1) and "allocate" in f.render(ts.assign_parts(f, y)[1])]
+    reads = [i for i, cal in f.calls() if cal and (f.call_macro(i) or cal["name"]) in ("fits_read_pix", "ffgpxv") and
+             any(ts.root_member(f, a) and ts.root_member(f, a)[0] == "knots" for a in f.args(i))]
+    if len(allocs) != 1 or len(reads) != 1:
+        raise core.AnalysisBroken("VG-2c: padded knot allocation / knot pixel read not found (%d, %d)" % (len(allocs), len(reads)))
+    gs = guards_of(f)
+    # required relation on the freshly read count: (count) - 2*order[#] - 2 < 0, count = the local just read or nknots[#]
+    want = [core.rel_canon(f, g["node"], None) for g in []]
+    cand = None
+    for g in gs:
+        for lf in g["leaves"]:
+            if isinstance(lf[0], Poly) and lf[1] == "<0":
+                # -2 + <count> - 2*order[#]: coefficient check on the polynomial, whatever the count variable is called
+                d = lf[0]
+                consts = [v for a, v in d.t.items() if a == ()]
+                ords = [v for a, v in d.t.items() if a == ("order[#]",)]
+                cnts = [(a, v) for a, v in d.t.items() if a not in ((), ("order[#]",))]
+                if consts == [-2] and ords == [-2] and len(cnts) == 1 and cnts[0][1] == 1 and len(cnts[0][0]) == 1:
+                    # the count must be the local just read (not yet stored in nknots) or nknots[#]; take the first such guard in the loop
+                    if cand is None or f.nodes[g["node"]]["loc"] < f.nodes[cand["node"]]["loc"]:
+                        cand = g
+    pos = f.node_positions()
+    dom = f.dominators()
+
+    def at(i):
+        while i >= 0 and i not in pos:
+            i = f.parent[i]
+        return pos.get(i)
+    ok = False
+    det = "no throwing guard for nknots < 2*order+2 in the knot loop"
+    if cand is not None:
+        pg = at(f.strip(f.nodes[cand["node"]]["cond"]))
+        late = []
+        for x in allocs + reads:
+            px = at(x)
+            if not (pg and px and ((pg[0] == px[0] and pg[1] < px[1]) or (pg[0] != px[0] and pg[0] in dom.get(px[0], ())))):
+                late.append(x)
+        wide = "uint64_t" in f.render(f.nodes[cand["node"]]["cond"]) or "unsigned long" in f.render(f.nodes[cand["node"]]["cond"])
+        ok = not late and wide
+        det = "guard `%s` dominates the padded allocation and the pixel read: %s; evaluated in 64 bits: %s" % (cand["text"][:80], not late, wide)
+    C.ob("VG-2c", "read_fits_core", "order-checked-before-padding", ok, f.loc(allocs[0]), det)
